@@ -21,8 +21,8 @@ FORBIDDEN = re.compile(r"\b(sorry|admit|native_decide|bv_decide|implemented_by|u
 
 # property -> list of (harness binary, generator family)
 FAMILIES = {
-    "C01": [("h_ops", "C01")], "C02": [("h_ops", "C02"), ("h_core", "C02")], "C03": [("h_core", "C03"), ("h_ops", "C03")],
-    "C04": [("h_ops", "C04")], "C05": [("h_core", "C05"), ("h_ops", "C05")], "C06": [("h_core", "C06")],
+    "C01": [("h_core", "OC01")], "C02": [("h_core", "OC02"), ("h_core", "C02")], "C03": [("h_core", "C03"), ("h_core", "OC03")],
+    "C04": [("h_core", "OC04")], "C05": [("h_core", "C05"), ("h_core", "OC05")], "C06": [("h_core", "C06")],
     "C07": [("h_core", "C07")], "C08": [("h_core", "C08")], "C09": [("h_core", "C09")],
     "C10": [("h_core", "C10")], "C11": [("h_core", "C11")], "C12": [("h_core", "C12")],
     "C13": [("h_core", "C13")], "C14": [("h_core", "C14")], "C15": [("h_core", "C15")],
